@@ -81,6 +81,7 @@ func checkC15(c *core.Ctx) {
 	ruleRevertUpdate(c)
 	ruleRevertController(c)
 	rulePostingsReverse(c)
+	ruleMarkReverts(c)
 }
 
 func ruleRevertUpdate(c *core.Ctx) {
@@ -365,6 +366,8 @@ func checkC18(c *core.Ctx) {
 	c.NotDecided("the result of the upsert CTE under concurrency")
 	c.Trust("Postgres LEAST/CASE semantics")
 	ruleAccountsLifecycle(c)
+	// listing at a point in time filters accounts on first_usage (temporal typing shared with C05)
+	ruleTemporalClauses(c)
 }
 
 // ruleAccountsLifecycle: who creates accounts, immutability of insertion_date, first_usage only
